@@ -494,6 +494,8 @@ def check_text_api(fx, rep, rule, impl):
         return
     sink = list(names)[0]
     OUT = ("place", sink, ())
+    sink_is_string = any(s_["k"] == "Let" and s_["pat"].get("k") == "Bind" and s_["pat"].get("name") == sink and (s_["pat"].get("ty") or "") == "std::string::String"
+                         for n_ in F.walk(b["body"]) if n_.get("k") == "Block" for s_ in n_["stmts"])
 
     def verbatim(line):
         return ("write_fmt", ("fmtargs", (("hole",), ("txt", "\n")), (("display", line),)))
@@ -502,7 +504,30 @@ def check_text_api(fx, rep, rule, impl):
         name, args = e[1], e[2]
         if name.endswith("Write::write_fmt"):
             return ("write_fmt", args[1])
+        # appending to the output `String` directly: the same text a `write!` of it appends (a String sink cannot fail)
+        if name == "std::string::String::push_str" and len(args) == 2:
+            a_ = args[1]
+            return ("write_fmt", ("fmtargs", (("txt", a_[2]),), ()) if (a_[0] == "lit" and a_[1] == "str") else ("fmtargs", (("hole",),), (("display", a_),)))
+        if name == "std::string::String::push" and len(args) == 2 and args[1][0] == "lit" and args[1][1] == "char":
+            return ("write_fmt", ("fmtargs", (("txt", args[1][2]),), ()))
         return (name,) + tuple(args[1:])
+
+    def merge_text(ops):
+        """consecutive appends are one append of the concatenation"""
+        out = []
+        for o_ in ops:
+            if o_[0] == "write_fmt" and o_[1][0] == "fmtargs" and out and out[-1][0] == "write_fmt" and out[-1][1][0] == "fmtargs":
+                a_, b_ = out[-1][1], o_[1]
+                pcs = list(a_[1])
+                for pc in b_[1]:
+                    if pc[0] == "txt" and pcs and pcs[-1][0] == "txt":
+                        pcs[-1] = ("txt", pcs[-1][1] + pc[1])
+                    else:
+                        pcs.append(pc)
+                out[-1] = ("write_fmt", ("fmtargs", tuple(pcs), tuple(a_[2]) + tuple(b_[2])))
+            else:
+                out.append(o_)
+        return out
 
     import readers as RD_
     drv_ = RD_.driver_of_loop(L) if L.get("node") is not None else None
@@ -544,6 +569,8 @@ def check_text_api(fx, rep, rule, impl):
 
     def outcome(st, out):
         ops = [fc.rewrite(norm_op(e), R.rw_iter) for e in out_ops(st, sink)]
+        if sink_is_string and len(ops) > 1:
+            ops = merge_text(ops)
         k, v = out
         if not ops and k in (S.BRK,):
             return ("no-line",)
